@@ -7,7 +7,9 @@ Local Open Scope N_scope.
 
 Definition L (k : kind) (ds : list dur) : leaf := mkleaf k ds.
 (* a TCP listener with connections whose handler is stuck (observations: items first, then these) *)
-Definition LS (ds stuck : list dur) : leaf := {| lkind := KTcp; litems := ds; lstuck := stuck |}.
+Definition LS (ds stuck : list dur) : leaf := {| lkind := KTcp; litems := ds; lstuck := stuck; lhijacked := [] |}.
+(* an HTTP listener with hijacked (websocket) sessions (observations: items first, then these) *)
+Definition LH (ds hij : list dur) : leaf := {| lkind := KHttp; litems := ds; lstuck := []; lhijacked := hij |}.
 
 (* what the client of one in-flight item saw *)
 Inductive obs :=
@@ -41,20 +43,31 @@ Fixpoint all2 {A B} (f : A -> B -> bool) (a : list A) (b : list B) : bool :=
   | _, _ => false
   end.
 
-Definition ret_matches (lo hi : N) (m : dur) (t : option N) : bool :=
+(* net/http's Shutdown notices idleness by polling (1 ms doubling up to 500 ms, +10% jitter): when a
+   reached HTTP listener has tracked work, the return may lag the model by up to one poll interval,
+   but never beyond the deadline (the context timer ends the poll) *)
+Definition http_poll : N := 600.
+
+Definition ret_matches (lo hi : N) (wait : N) (busy_http : bool) (m : dur) (t : option N) : bool :=
   match m, t with
-  | Fin m, Some t => near lo hi m t
+  | Fin m, Some t =>
+      let upper := if busy_http then N.max m (N.min (m + http_poll) wait) else m in
+      (m <=? t + lo) && (t <=? upper + hi)
   | Inf, None => true
   | _, _ => false
   end.
 
+(* everything a leaf has open, in the order the observations come: items, stuck handlers, hijacked *)
+Definition leaf_model_fates (lr : lresult) : list fate := r_fates lr ++ r_stuck lr ++ r_hijacked lr.
+
 (* ---- the property on the implementation's own observables (independent of the model's
-        step programs): nobody is accepted, every item that needs at most wait - 50 ms got its
+        step programs): nobody is accepted, every item that needs at most wait - margin got its
         complete answer before Shutdown returned (+margin for the client to see it), and
-        Shutdown returned within wait + 2 s.  Servers closed by CloseProxy BEFORE shutdown began
-        are outside clause 2 (their work was not in flight when shutdown began) ---- *)
+        Shutdown returned within wait + slack, slack = a quarter of the wait, at least 300 ms.
+        Servers closed by CloseProxy BEFORE shutdown began are outside clause 2 (their work
+        was not in flight when shutdown began) ---- *)
 Definition spec_margin : N := 150.
-Definition spec_slack : N := 2000.
+Definition spec_slack (wait : N) : N := N.max 300 (wait / 4).
 
 Definition item_ok (wait : N) (impl_T : option N) (d : dur) (o : obs) : bool :=
   match d with
@@ -74,40 +87,59 @@ Fixpoint closed_earlier (h : list hop) : list bool :=
   | [] => []
   | HStart a _ :: r =>
       existsb (fun o => match o with HClose a' => addr_eqb a' a | _ => false end) r :: closed_earlier r
+  | HStartDuring _ _ :: r => false :: closed_earlier r
   | _ :: r => closed_earlier r
   end.
+
+Definition leaf_open_work (l : leaf) : list dur :=
+  litems l ++ map (fun _ => Inf) (lstuck l) ++ lhijacked l.
 
 Definition spec_impl (wait : N) (hist : list hop) (impl_T : option N)
            (acc1 acc2 : list bool) (impl : list (list (list obs))) : bool :=
   forallb negb acc1 && forallb negb acc2
   && all2 (fun (p : server * bool) os => if snd p then true else
-             all2 (fun l o => all2 (item_ok wait impl_T) (litems l ++ map (fun _ => Inf) (lstuck l)) o) (leaves (fst p)) os)
+             all2 (fun l o => all2 (item_ok wait impl_T) (leaf_open_work l) o) (leaves (fst p)) os)
           (combine (history_servers hist) (closed_earlier hist)) impl
-  && match impl_T with Some T => T <=? wait + spec_slack | None => false end.
+  && match impl_T with Some T => T <=? wait + spec_slack wait | None => false end.
 
-(* no finding region: F-C18-1 (gRPC Shutdown ignored its deadline) was repaired by fix 72215e8;
-   by C18_bounded the model satisfies the bound for every input *)
+(* finding regions, syntactic on the input:
+   2 (F-C18-2): an HTTP listener carries a hijacked session that needs at most wait - margin;
+   3 (F-C18-3): a listener is started while Shutdown runs *)
+Definition in_region_hijacked (wait : N) (hist : list hop) : bool :=
+  existsb (fun s => existsb (fun l => kind_eqb (lkind l) KHttp &&
+                                      existsb (fun d => match d with Fin n => n + spec_margin <=? wait | Inf => false end)
+                                              (lhijacked l)) (leaves s)) (history_servers hist).
+
 Definition check_case (c : case) : N :=
   match c with
   | CScen wait hist impl_T probe_at acc1 acc2 impl lo hi =>
       let srvs := history_servers hist in
       let rs := run_history grpc_prog key_configured wait hist in
+      let busy_http :=
+        existsb (fun p => match fst p with
+                          | SReached _ => existsb (fun l => kind_eqb (lkind l) KHttp &&
+                                                            negb (match litems l with [] => true | _ => false end))
+                                                  (leaves (snd p))
+                          | _ => false end) (combine rs srvs) in
       let same :=
-        ret_matches lo hi (history_ret rs) impl_T
+        ret_matches lo hi wait busy_http (history_ret rs) impl_T
         && all2 (fun r a => Bool.eqb (sfate_accepts r probe_at) a) rs acc1
         && all2 (fun r a => Bool.eqb (sfate_accepts r probe_at) a) rs acc2
         && all2 (fun p os =>
                    match fst p with
-                   | SReached r => all2 (fun lr o => all2 (fate_matches lo hi) (r_fates lr ++ r_stuck lr) o) (s_leaves r) os
-                   | SLost => (* not reached by Shutdown: nothing closed, nothing cut *)
-                       all2 (fun l o => all2 (fate_matches lo hi) (map untouched (litems l) ++ map Cut (lstuck l)) o)
+                   | SReached r => all2 (fun lr o => all2 (fate_matches lo hi) (leaf_model_fates lr) o) (s_leaves r) os
+                   | SLost | SLate => (* not reached by Shutdown: nothing closed, nothing cut *)
+                       all2 (fun l o => all2 (fate_matches lo hi)
+                                             (map untouched (litems l) ++ map Cut (lstuck l) ++ map untouched (lhijacked l)) o)
                             (leaves (snd p)) os
-                   | SClosed => (* every connection closed by CloseProxy before shutdown began (time 0 here) *)
-                       all2 (fun l o => all2 (fate_matches lo hi) (map (fun _ => Cut (Fin 0)) (litems l ++ lstuck l)) o)
+                   | SClosed => (* every tracked connection closed by CloseProxy before shutdown began (time 0 here) *)
+                       all2 (fun l o => all2 (fate_matches lo hi)
+                                             (map (fun _ => Cut (Fin 0)) (litems l ++ lstuck l) ++ map untouched (lhijacked l)) o)
                             (leaves (snd p)) os
                    end) (combine rs srvs) impl in
       let spec := spec_impl wait hist impl_T acc1 acc2 impl in
-      let region : option N := None in
-      let nontriv := existsb (fun s => existsb (fun l => negb (match litems l ++ lstuck l with [] => true | _ => false end)) (leaves s)) srvs in
+      let region : option N :=
+        if has_late_start hist then Some 3 else if in_region_hijacked wait hist then Some 2 else None in
+      let nontriv := existsb (fun s => existsb (fun l => negb (match leaf_open_work l with [] => true | _ => false end)) (leaves s)) srvs in
       verdict same spec region nontriv
   end.
